@@ -223,7 +223,7 @@ PRELUDE = (
     "Hashable, Sized, MutableSequence, AbstractSet\n"
     "from typing_extensions import Unpack\nimport collections.abc as cabc\n"
     "from enum import Enum, IntEnum, EnumType\nfrom abc import ABCMeta\n"
-    "from harness.universe import A, B, Cc, D, Color, IE, NT0, NT1, NT2\n"
+    "from harness.universe import A, B, Cc, D, Color, IE, Fl, NT0, NT1, NT2\n"
 )
 
 
